@@ -108,32 +108,73 @@ theorem bshape2_dims (s1 s2 : List Nat) :
   unfold bdims ext
   simp only [List.length_reverse, bcastDim_nat]
 
-theorem bshape2_of_ok {s1 s2 : List Nat} {r : Bool} (h : ZipOk s1 s2 r) : bshape2 s1 s2 r = .ok (bdims s1 s2) := by
+/-- the rank guard of `is_result=True`: the operand may not have more axes than the result shape -/
+def RankOk (s1 s2 : List Nat) (r : Bool) : Prop := r = true → s1.length ≤ s2.length
+
+theorem bshape2_of_ok' {s1 s2 : List Nat} {r : Bool} (hg : RankOk s1 s2 r) (h : ZipOk s1 s2 r) :
+    bshape2 s1 s2 r = .ok (bdims s1 s2) := by
   unfold bshape2
   simp only []
-  rw [if_pos ((zip_all_iff s1 s2 r).mpr h), bshape2_dims]
+  have hguard : ¬ ((r && decide (s1.length > s2.length)) = true) := by
+    intro hh
+    simp only [Bool.and_eq_true, decide_eq_true_eq] at hh
+    have := hg hh.1
+    omega
+  rw [if_neg hguard, if_pos ((zip_all_iff s1 s2 r).mpr h), bshape2_dims]
+
+theorem bshape2_of_ok {s1 s2 : List Nat} (h : ZipOk s1 s2 false) : bshape2 s1 s2 false = .ok (bdims s1 s2) :=
+  bshape2_of_ok' (fun hh => by cases hh) h
+
+theorem bshape2_true_of_ok {s1 s2 : List Nat} (hl : s1.length ≤ s2.length) (h : ZipOk s1 s2 true) :
+    bshape2 s1 s2 true = .ok (bdims s1 s2) :=
+  bshape2_of_ok' (fun _ => hl) h
 
 theorem bshape2_of_not_ok {s1 s2 : List Nat} {r : Bool} (h : ¬ ZipOk s1 s2 r) : bshape2 s1 s2 r = .error .value := by
   unfold bshape2
   simp only []
   rw [if_neg (fun hh => h ((zip_all_iff s1 s2 r).mp hh))]
+  split <;> rfl
 
-theorem bshape2_ok_iff {s1 s2 t : List Nat} {r : Bool} : bshape2 s1 s2 r = .ok t ↔ ZipOk s1 s2 r ∧ t = bdims s1 s2 := by
-  by_cases h : ZipOk s1 s2 r
-  · rw [bshape2_of_ok h]
-    constructor
-    · intro hh; exact ⟨h, (Except.ok.inj hh).symm⟩
-    · intro hh; rw [hh.2]
-  · rw [bshape2_of_not_ok h]
+/-- the new guard: an operand with more axes than the result shape is rejected -/
+theorem bshape2_of_more_axes {s1 s2 : List Nat} (h : s2.length < s1.length) : bshape2 s1 s2 true = .error .value := by
+  unfold bshape2
+  simp only []
+  rw [if_pos (by simpa using h)]
+
+theorem bshape2_ok_iff {s1 s2 t : List Nat} {r : Bool} :
+    bshape2 s1 s2 r = .ok t ↔ RankOk s1 s2 r ∧ ZipOk s1 s2 r ∧ t = bdims s1 s2 := by
+  by_cases hg : RankOk s1 s2 r
+  · by_cases h : ZipOk s1 s2 r
+    · rw [bshape2_of_ok' hg h]
+      constructor
+      · intro hh; exact ⟨hg, h, (Except.ok.inj hh).symm⟩
+      · intro hh; rw [hh.2.2]
+    · rw [bshape2_of_not_ok h]
+      constructor
+      · intro hh; cases hh
+      · intro hh; exact absurd hh.2.1 h
+  · have hr : r = true ∧ s2.length < s1.length := by
+      unfold RankOk at hg
+      cases r
+      · exact absurd (fun hh => by cases hh) hg
+      · exact ⟨rfl, by
+          apply Classical.byContradiction
+          intro hc
+          exact hg fun _ => by omega⟩
+    obtain ⟨rfl, hlt⟩ := hr
+    rw [bshape2_of_more_axes hlt]
     constructor
     · intro hh; cases hh
-    · intro hh; exact absurd hh.1 h
+    · intro hh; exact absurd hh.1 hg
 
-theorem bshape2_error {s1 s2 : List Nat} {r : Bool} {e : Err} (h : bshape2 s1 s2 r = .error e) :
-    e = .value ∧ ¬ ZipOk s1 s2 r := by
-  by_cases hz : ZipOk s1 s2 r
-  · rw [bshape2_of_ok hz] at h; cases h
-  · rw [bshape2_of_not_ok hz] at h; exact ⟨(Except.error.inj h).symm, hz⟩
+theorem bshape2_error {s1 s2 : List Nat} {r : Bool} {e : Err} (h : bshape2 s1 s2 r = .error e) : e = .value := by
+  unfold bshape2 at h
+  simp only [] at h
+  split at h
+  · exact (Except.error.inj h).symm
+  · split at h
+    · cases h
+    · exact (Except.error.inj h).symm
 
 theorem bdims_length (s1 s2 : List Nat) : (bdims s1 s2).length = max s1.length s2.length := by
   simp [bdims]
@@ -287,23 +328,14 @@ theorem bdims_result {s1 s2 : List Nat} (h : ZipOk s1 s2 true) :
       · next h1 => exact h1.symm
       · rfl
 
-theorem bshape2_result_eq (s1 s2 : List Nat) [Decidable (ZipOk s1 s2 true)] :
-    bshape2 s1 s2 true = if ZipOk s1 s2 true then .ok (s1.take (s1.length - s2.length) ++ s2) else .error .value := by
-  by_cases h : ZipOk s1 s2 true
-  · rw [if_pos h, bshape2_of_ok h, bdims_result h]
-  · rw [if_neg h, bshape2_of_not_ok h]
-
 /-- `bshape2 src dst true = ok dst` exactly when `src` has no more axes than `dst` and every aligned
 pair is equal or has extent 1 on the `src` side -/
 theorem bshape2_result_ok_self {s1 s2 : List Nat} :
     bshape2 s1 s2 true = .ok s2 ↔ s1.length ≤ s2.length ∧ ∀ k, k < s1.length → (ext s1 k = ext s2 k ∨ ext s1 k = 1) := by
   rw [bshape2_ok_iff]
   constructor
-  · rintro ⟨hz, hd⟩
-    have hl : s1.length ≤ s2.length := by
-      have := congrArg List.length hd
-      rw [bdims_length] at this
-      omega
+  · rintro ⟨hg, hz, _⟩
+    have hl : s1.length ≤ s2.length := hg rfl
     refine ⟨hl, fun k hk => ?_⟩
     rcases hz k hk (by omega) with h | h | h
     · exact Or.inl h
@@ -315,10 +347,17 @@ theorem bshape2_result_ok_self {s1 s2 : List Nat} :
       rcases h k h1 with h3 | h3
       · exact Or.inl h3
       · exact Or.inr (Or.inl h3)
-    refine ⟨hz, ?_⟩
+    refine ⟨fun _ => hl, hz, ?_⟩
     rw [bdims_result hz]
     have : s1.length - s2.length = 0 := by omega
     simp [this]
+
+/-- with `is_result=True` a success always returns the result shape itself -/
+theorem bshape2_true_ok_eq {s1 s2 t : List Nat} (h : bshape2 s1 s2 true = .ok t) : t = s2 := by
+  obtain ⟨hg, hz, ht⟩ := bshape2_ok_iff.mp h
+  rw [ht, bdims_result hz]
+  have : s1.length - s2.length = 0 := by have := hg rfl; omega
+  simp [this]
 
 /-- the check made with `is_result=True`, written without the generated code -/
 theorem zipOk_result_iff (s t : List Nat) :
